@@ -30,6 +30,10 @@ THEOREMS = [
     "C16_cursor_param",
     "C16_resolve_stream",
     "C16_sse_resume",
+    "C16_writers_program",
+    "C16_writers_atomic_insert",
+    "C16_writers_consecutive",
+    "C16_writers_read_then_insert_collides",
 ]
 LEAN_TARGETS = ["WfProps.C16"]
 EXPLANATION = (
@@ -52,7 +56,15 @@ EXPLANATION = (
     "real _WorkflowAPI._stream_events coroutine (fake Request, name-only starlette shim) under a virtual-time, "
     "run-to-quiescence scheduler. Search: monitors on the real stores' outputs (consecutive, exact content, "
     "ends-after-first-terminal, completeness after draining, resume chains, backend agreement, SSE ids) on the same "
-    "streams and on free-running producer/consumer/reconnect scenarios."
+    "streams and on free-running producer/consumer/reconnect scenarios. Several writers on one SQLite file: "
+    "WfModel/EventLogWriters.lean has ONE SQL STATEMENT per step (write lock, uncommitted rows of the lock holder, busy = the "
+    "statement does not run), the program append_event runs is regenerated from the sources (sqlAppendStatements); "
+    "C16_writers_consecutive: any number of writers running it, under any statement interleaving, commit rows numbered "
+    "0,1,2,... in commit order; C16_writers_read_then_insert_collides: SELECT MAX then INSERT does not (twin sequence, "
+    "the resumed stream omits the twin). Implementation side (harness/sqlwriters.py): a second store object on the same "
+    "file, run as another process would at EVERY statement boundary of writer A's operations (append_event, handler update, "
+    "append_tick), a client of B that reads and later reconnects to A; monitors on the committed rows (numbering in commit "
+    "order) and on seen ++ resumed; the observed statement trace is compared with the model statement by statement."
 )
 LEVEL_TEXT = "proof (all append/subscribe interleavings, cursors, terminal positions, both backends) + correspondence + implementation-side monitors"
 ASSUMPTIONS = [
@@ -61,6 +73,11 @@ ASSUMPTIONS = [
     "only through the real stores under harness/vloop.py)",
     "sqlite3: one INSERT ... COALESCE(MAX(sequence),-1)+1 statement is atomic; ORDER BY sequence; a committed row is "
     "visible to the next query on any connection (modelled; exercised with temp files in both connection modes)",
+    "sqlite3 between connections (rollback journal, Python's implicit BEGIN before the first write statement, none for SELECT): "
+    "a write statement of another connection fails/waits while a transaction holds the write lock, reads are not blocked, "
+    "rowid order of one run's rows = commit order (modelled in EventLogWriters; observed with two real connections on a temp "
+    "file; the other writer runs whole operations at a statement boundary of the first, not inside a statement; WAL mode, "
+    "the unix-none VFS of single_connection mode and more than two real writers are not exercised)",
     "run ids are not reused after MemoryWorkflowStore evicts a completed handler's log (max_completed); no code path "
     "deletes part of a run's events (the driver's `trim` op exists only to pin last+1 against count in the correspondence)",
     "query_events(limit<0) is outside the property: Python slicing drops from the end, SQLite LIMIT -1 is unlimited "
@@ -76,6 +93,8 @@ TRUSTED_EXTRA = [
     "harness/gen/eventlog.py (names, statuses, DDL, statement skeletons)",
     "pyshims/starlette (names only: Request/StreamingResponse/HTTPException containers; no routing, no ASGI)",
     "harness/vloop.py run-to-quiescence scheduling (quiescence hook) as the notion of 'one op at a time'",
+    "harness/sqlwriters.py (stand-in for the name `sqlite3` in the store module: real connections of a reporting subclass; "
+    "the second writer on its own thread and event loop)",
 ]
 
 POLL = 1.0
@@ -1603,7 +1622,8 @@ def run(env: Env) -> Outcome:
                 "position, advanced one item at a time, cancelled and reconnected, queries with cursor and limit, poll ticks, external "
                 "SQLite writers, storage-level deletion (correspondence only), endpoint requests with now / integer / unparsable "
                 "after_sequence and Last-Event-ID in SSE and NDJSON mode; every stream ends with a drain phase; plus free-running "
-                "producer/consumer/reconnect tasks under virtual time. non-trivial = a stream in which some subscriber received an "
+                "producer/consumer/reconnect tasks under virtual time; plus two store objects on one SQLite file, the second one appending "
+                "(and its client reading) at every statement boundary of the first one's append_event / update / append_tick. non-trivial = a stream in which some subscriber received an "
                 "event; distinct by op list")
     I = load_impl()
     api_ok = I["api"] is not None
@@ -1623,8 +1643,6 @@ def run(env: Env) -> Outcome:
             wcases.append((rc, False))
     cases += corpus()
     wcases += [(c, True) for c in writers_corpus()]
-    for _ in range(env.budget(5, 150)):
-        wcases.append((gen_writers(rng), True))
     n_core, n_ext, n_trim, n_api, n_free = (env.budget(26, 900), env.budget(10, 350), env.budget(8, 250), env.budget(16, 600), env.budget(10, 400))
     for _ in range(n_core):
         cases.append(gen_store_stream(rng, "core"))
@@ -1637,6 +1655,8 @@ def run(env: Env) -> Outcome:
     cases.append({"kind": "core", "ops": [["malformed", m] for m in MALFORMED]})
     for _ in range(n_free):
         free_cases.append(gen_free(rng))
+    for _ in range(env.budget(5, 150)):  # drawn last: the streams above stay what they were for a given seed
+        wcases.append((gen_writers(rng), True))
 
     batches: dict[str, list] = {}
     seen_sigs: set[str] = set()
